@@ -10,8 +10,13 @@ package main
 //    with valid lines at every position and concurrency 1…8: the process terminates within the
 //    wall-time limit, every other line's files are byte-identical to its solo run, the summary
 //    lists exactly the failing ids, no foreign file is written;
-//  * input-error / configuration classes that end in log.Fatal or panic (texture missing in one
-//    of the two parameter tables, rotation dates not ascending, tillage depth ≥ 45 cm);
+//  * further input-error classes the code reports per run (texture missing in one of the two parameter
+//    tables, rotation dates not ascending) and valid but unusual configurations (deep tillage): a
+//    class built as valid must complete and is then one more valid line of the mixed batches; any
+//    class that ends the process is the violation fatal:<class>;
+//  * sessions mixing parameter folders, per-project tables and projects without optional input
+//    files (kern_dispatch_session.go): every conflict pair in both orders at concurrency 1 and 2,
+//    random mixes; each line compared with its solo run, failures reported per line;
 //  * fertiliser prediction (VirtualDateFertilizerPrediction set) at latitudes −60…70, each in a
 //    subprocess with a timeout (a hang is the violation langtag:nonterminating:lat<…>).
 // Correspondence: dispatch.run (model dispatcher under a random schedule vs the real summary),
@@ -131,10 +136,10 @@ func c11Classes() []errClass {
 			p.Rot[1].Sow = p.Rot[0].Harvest.AddDays(-20) // sowing before the previous harvest
 			return p, nil, nil
 		}},
-		// ---- a valid configuration (deep tillage). Self-adjusting: when the run completes it is one more
-		// valid line of the mixed batches (files must equal its solo run); when it ends the process it
-		// is the violation fatal:tillage-depth>=45cm (F12, nitro.go:255).
-		{Name: "tillage-depth>=45cm", Reported: false, Expect: "", Build: func(r *vh.Rng, name string) (*proj.Project, []string, func(string) error) {
+		// ---- a valid configuration (tillage deeper than the four 10 cm layers of the fresh-organic-matter
+		// arrays, nitro.go:251-265): the run must complete and is then one more valid line of the mixed
+		// batches (files must equal its solo run)
+		{Name: "deep-tillage", Reported: false, Expect: "", Build: func(r *vh.Rng, name string) (*proj.Project, []string, func(string) error) {
 			p := genWithCrop(r, name)
 			p.Til = []proj.TilEv{{Depth: r.Range(45, 60), Kind: 1, Date: p.Rot[0].Harvest.AddDays(r.Range(1, 3))}} // before the next sowing (≥ 6 days after the harvest)
 			return p, nil, nil
@@ -196,7 +201,7 @@ func checkC11(c *vh.Ctx) {
 			raceBin = ""
 		}
 	}
-	c.Res.Rule = "for every error class × every position of the failing line among the valid lines × concurrency 1..8 (plus -lines windows and two failing lines per batch): process ends normally within the wall-time limit, files of every other line byte-identical (sha256) to its solo run, summary ids == failing ids, printed count == number of summary lines, no foreign file, inputs unchanged; every failing class alone: terminates and is listed; fertiliser prediction at latitudes -60..70 in a subprocess with timeout; evaluations = (batch, line) pairs + latitude probes + correspondence cases; distinct = (class, position, concurrency) + latitudes"
+	c.Res.Rule = "for every error class × every position of the failing line among the valid lines × concurrency 1..8 (plus -lines windows and two failing lines per batch): process ends normally within the wall-time limit, files of every other line byte-identical (sha256) to its solo run, summary ids == failing ids, printed count == number of summary lines, no foreign file, inputs unchanged; every failing class alone: terminates and is listed; sessions mixing parameter folders / per-project tables / absent optional files in both orders at concurrency 1 and 2 and random mixes: each line succeeds or is reported exactly as alone, files == solo; fertiliser prediction at latitudes -60..70 in a subprocess with timeout; evaluations = (batch, line) pairs + latitude probes + correspondence cases; distinct = (class, position, concurrency) + latitudes"
 	checkFatalFacts(c)
 	langtagCorrespondence(c)
 
@@ -547,6 +552,14 @@ func checkC11(c *vh.Ctx) {
 				break
 			}
 		}
+	}
+	// ---------------------------------------------------------------- sessions mixing parameter folders,
+	// per-project tables and projects without optional files: isolation and per-line reporting
+	// (kern_dispatch_session.go; the same scenario generator as C03, other seed stream)
+	{
+		cs, im := runSessionScenario(c, bin, raceBin, c.N(2, 5), c.N(10, 30))
+		cases = append(cases, cs...)
+		impl = append(impl, im...)
 	}
 	saved := cases
 	c.Correspond("dispatch.run", cases, impl, 0, 0, func(i int) interface{} { return saved[i] })
